@@ -31,6 +31,7 @@ type fragGen struct {
 	strs     []string
 	bools    []string
 	arrs     []string
+	maps     []string // {}num variables with the keys a and b
 	ctrs     []string // while counters (pre-declared)
 	lvs      []string // loop variables in scope (read only), with their type
 	lvTyp    map[string]string
@@ -69,7 +70,7 @@ func (g *fragGen) idx(n int) string {
 }
 
 func (g *fragGen) num(d int) string {
-	k := g.rng.Intn(12)
+	k := g.rng.Intn(13)
 	if d <= 0 {
 		k = g.rng.Intn(4)
 	}
@@ -94,10 +95,37 @@ func (g *fragGen) num(d int) string {
 		return "(" + g.num(d-1) + " " + g.pick([]string{"/", "%"}) + " " + strconv.Itoa(1+g.rng.Intn(4)) + ")"
 	case k < 10:
 		return "(-" + g.pick(g.nums) + ")"
-	default:
+	case k < 11:
 		// arrays are kept at 3 elements by the generator
 		return g.pick(g.arrs) + "[" + g.idx(3) + "]"
+	default:
+		// maps are kept at the keys a and b by the generator
+		if g.rng.Intn(5) == 0 {
+			return g.mapLit() + "[" + g.key() + "]"
+		}
+		return g.pick(g.maps) + "[" + g.key() + "]"
 	}
+}
+
+func (g *fragGen) key() string {
+	if g.errs && g.rng.Intn(10) == 0 {
+		return `"zz"` // no such key
+	}
+	return g.pick([]string{`"a"`, `"b"`})
+}
+
+func (g *fragGen) mapLit() string {
+	if g.rng.Intn(2) == 0 {
+		return "{b:" + g.num(1) + " a:" + g.num(0) + "}"
+	}
+	return "{a:" + g.num(1) + " b:" + g.num(0) + "}"
+}
+
+func (g *fragGen) mapv() string {
+	if g.rng.Intn(3) == 0 {
+		return g.pick(g.maps)
+	}
+	return g.mapLit()
 }
 
 func (g *fragGen) strLit() string {
@@ -160,7 +188,9 @@ func (g *fragGen) arr() string {
 }
 
 func (g *fragGen) assign(ind int) {
-	switch g.rng.Intn(8) {
+	switch g.rng.Intn(9) {
+	case 8:
+		g.line(ind, g.pick(g.maps)+" = "+g.mapv())
 	case 0, 1, 2:
 		g.line(ind, g.pick(g.nums)+" = "+g.num(2))
 	case 3, 4:
@@ -192,13 +222,13 @@ func (g *fragGen) rangeHdr() string {
 
 func (g *fragGen) block(ind, depth int, inLoop, top bool) {
 	// a block is a scope: what it declares is gone at its end
-	ln, ls, lb, la, cd := len(g.nums), len(g.strs), len(g.bools), len(g.arrs), g.curDecl
+	ln, ls, lb, la, lm, cd := len(g.nums), len(g.strs), len(g.bools), len(g.arrs), len(g.maps), g.curDecl
 	g.curDecl = map[string]bool{}
 	n := 1 + g.rng.Intn(3)
 	for i := 0; i < n; i++ {
 		g.stmt(ind, depth, inLoop, top)
 	}
-	g.nums, g.strs, g.bools, g.arrs, g.curDecl = g.nums[:ln], g.strs[:ls], g.bools[:lb], g.arrs[:la], cd
+	g.nums, g.strs, g.bools, g.arrs, g.maps, g.curDecl = g.nums[:ln], g.strs[:ls], g.bools[:lb], g.arrs[:la], g.maps[:lm], cd
 }
 
 // declName: a fresh name, or (inside a block, sometimes) the name of a visible
@@ -261,11 +291,13 @@ func (g *fragGen) stmt(ind, depth int, inLoop, top bool) {
 		g.block(ind+1, depth+1, true, false)
 		g.line(ind, "end")
 	case k < 16: // for range without loop variable
-		switch g.rng.Intn(4) {
+		switch g.rng.Intn(5) {
 		case 0:
 			g.line(ind, "for range "+g.arr())
 		case 1:
 			g.line(ind, "for range "+g.str(1))
+		case 4:
+			g.line(ind, "for range "+g.mapv())
 		default:
 			g.line(ind, "for range "+g.rangeHdr())
 		}
@@ -281,7 +313,15 @@ func (g *fragGen) stmt(ind, depth int, inLoop, top bool) {
 		switch g.rng.Intn(4) {
 		case 0:
 			// the parser rejects variables that are never read: a block-local one is read right away
-			switch g.rng.Intn(4) {
+			switch g.rng.Intn(5) {
+			case 4:
+				e := g.mapv()
+				v := g.declName(g.maps)
+				g.line(ind, v+" := "+e)
+				g.maps = append(g.maps, v)
+				if !top {
+					g.line(ind, "n1 = n1 + "+v+`["a"]`)
+				}
 			case 0:
 				e := g.num(2)
 				v := g.declName(g.nums)
@@ -328,7 +368,10 @@ func (g *fragGen) stmt(ind, depth int, inLoop, top bool) {
 		default:
 			g.nid++
 			lv := fmt.Sprintf("e%d", g.nid)
-			if g.rng.Intn(2) == 0 {
+			if r := g.rng.Intn(5); r == 4 {
+				g.line(ind, "for "+lv+" := range "+g.mapv())
+				g.lvTyp[lv] = "string"
+			} else if r < 2 {
 				g.line(ind, "for "+lv+" := range "+g.arr())
 				g.lvTyp[lv] = "num"
 			} else {
@@ -358,14 +401,15 @@ func genFragProgram(rng *rand.Rand, errs, locals bool) string {
 	g.line(0, `s1 := ""`)
 	g.line(0, "b0 := true")
 	g.line(0, "a0 := [1 2 3]")
-	g.nums, g.strs, g.bools, g.arrs = []string{"n0", "n1"}, []string{"s0", "s1"}, []string{"b0"}, []string{"a0"}
+	g.line(0, "m0 := {a:1 b:2}")
+	g.nums, g.strs, g.bools, g.arrs, g.maps = []string{"n0", "n1"}, []string{"s0", "s1"}, []string{"b0"}, []string{"a0"}, []string{"m0"}
 	for i := 0; i < 4; i++ {
 		c := fmt.Sprintf("w%d", i)
 		g.line(0, c+" := 0")
 		g.ctrs = append(g.ctrs, c)
 	}
 	// the parser rejects variables that are never read
-	g.line(0, "n0 = n0 + n1 + w0 + w1 + w2 + w3 + a0[0]")
+	g.line(0, `n0 = n0 + n1 + w0 + w1 + w2 + w3 + a0[0] + m0["a"]`)
 	g.line(0, "s0 = s0 + s1")
 	g.line(0, "b0 = b0 == b0")
 	n := 3 + rng.Intn(6)
@@ -383,6 +427,9 @@ func genFragProgram(rng *rand.Rand, errs, locals bool) string {
 	}
 	for _, v := range g.arrs[1:] {
 		g.line(0, "n1 = n1 + "+v+"[0]")
+	}
+	for _, v := range g.maps[1:] {
+		g.line(0, "n1 = n1 + "+v+`["a"]`)
 	}
 	return g.b.String()
 }
